@@ -1,6 +1,6 @@
 SPECIFICATION Spec
 CONSTANTS
-  Fence = FALSE
-  TSO = FALSE
+  Fence = TRUE
+  TSO = TRUE
   Rounds = 2
 INVARIANT MutualExclusion
